@@ -25,9 +25,12 @@ type Pat struct {
 	Redispatch bool `json:",omitempty"`
 
 	// Err: the handler returns an error after reading (and writing) what its
-	// program says.
-	Err bool `json:",omitempty"`
+	// program says: plain | eof (bare io.EOF) | unexpected-eof | wrapped-eof |
+	// canceled | deadline.
+	Err string `json:",omitempty"`
 }
+
+var errKinds = []string{"plain", "plain", "eof", "eof", "unexpected-eof", "wrapped-eof", "canceled", "deadline"}
 
 // Tag identifies the registration in reports.
 func (p Pat) Tag() string {
@@ -55,6 +58,19 @@ type El struct {
 	Kids         []*El
 	Sep          string // white space written before each child and before the end tag
 	Embedded     bool   `json:",omitempty"` // a stanza inside a forwarding wrapper (has its own id and type)
+
+	// Fill: number of extra white-space-only character data tokens (CDATA
+	// sections holding one blank) written before every child and the end tag.
+	Fill int `json:",omitempty"`
+	// QAttrs: namespace-qualified attributes named like the stanza attributes;
+	// they are not the stanza's id, type, to or from.
+	QAttrs []QAttr `json:",omitempty"`
+}
+
+// QAttr is a qualified attribute on a stanza start tag.
+type QAttr struct {
+	Space, Local, Value string
+	First               bool // written before the unqualified attributes
 }
 
 // Case is one generated scenario.
@@ -123,6 +139,12 @@ func (e *El) raw(sb *strings.Builder, parentNS string, top bool) {
 	} else if e.Space != parentNS {
 		fmt.Fprintf(sb, " xmlns='%s'", esc(e.Space))
 	}
+	for k, q := range e.QAttrs {
+		fmt.Fprintf(sb, " xmlns:q%d='%s'", k, esc(q.Space))
+		if q.First {
+			fmt.Fprintf(sb, " q%d:%s='%s'", k, q.Local, esc(q.Value))
+		}
+	}
 	if (top || e.Embedded) && isStanzaLocal(e.Local) && !e.NoType {
 		fmt.Fprintf(sb, " type='%s'", esc(e.Type))
 	}
@@ -135,18 +157,24 @@ func (e *El) raw(sb *strings.Builder, parentNS string, top bool) {
 	if e.From != "" {
 		fmt.Fprintf(sb, " from='%s'", esc(e.From))
 	}
+	for k, q := range e.QAttrs {
+		if !q.First {
+			fmt.Fprintf(sb, " q%d:%s='%s'", k, q.Local, esc(q.Value))
+		}
+	}
 	if len(e.Kids) == 0 && e.Text == "" {
 		sb.WriteString("/>")
 		return
 	}
 	sb.WriteString(">")
 	sb.WriteString(esc(e.Text))
+	fill := strings.Repeat("<![CDATA[ ]]>", e.Fill)
 	for _, k := range e.Kids {
-		sb.WriteString(e.Sep)
+		sb.WriteString(e.Sep + fill)
 		k.raw(sb, e.Space, false)
 	}
 	if len(e.Kids) > 0 {
-		sb.WriteString(e.Sep)
+		sb.WriteString(e.Sep + fill)
 	}
 	sb.WriteString("</" + e.Local + ">")
 }
@@ -402,6 +430,24 @@ func genStanza(r *rand.Rand, kind, typ, ns string, id int) *El {
 	if kind == "iq" && nk > 1 && r.Intn(3) != 0 {
 		nk = 1
 	}
+	if r.Intn(4) == 0 {
+		e.Fill = 1 + r.Intn(3)
+	}
+	if r.Intn(6) == 0 {
+		other := map[string]string{"iq": "set", "message": "headline", "presence": "unavailable"}[kind]
+		if other == typ {
+			other = "error"
+		}
+		vals := map[string]string{"type": other, "id": "qualified-id", "to": "q-to@qualified.example/q", "from": "q-from@qualified.example"}
+		names := []string{"type", "id", "to", "from"}
+		for _, i := range r.Perm(4)[:1+r.Intn(3)] {
+			q := QAttr{Space: "urn:verif:q", Local: names[i], Value: vals[names[i]], First: r.Intn(2) == 0}
+			if r.Intn(3) == 0 {
+				q.Space = ns // qualified by the stanza's own namespace
+			}
+			e.QAttrs = append(e.QAttrs, q)
+		}
+	}
 	for i := 0; i < nk; i++ {
 		k := genChild(r, 0)
 		if r.Intn(25) == 0 {
@@ -590,7 +636,7 @@ func genCase(r *rand.Rand) *Case {
 	if r.Intn(5) == 0 {
 		for i := range c.Pats {
 			if !c.Pats[i].Redispatch && r.Intn(3) == 0 {
-				c.Pats[i].Err = true
+				c.Pats[i].Err = errKinds[r.Intn(len(errKinds))]
 			}
 		}
 	}
@@ -604,7 +650,7 @@ func genCase(r *rand.Rand) *Case {
 		c.StageMask = r.Uint64() | 1<<62
 	}
 	for _, p := range c.Pats {
-		if p.Err {
+		if p.Err != "" {
 			// a handler error ends a served session; what the session does with
 			// it is not this property's business
 			c.Served = false
